@@ -797,6 +797,7 @@ def check(case, run, stats=None):
     model_version = [0]
     batch = {'T': None, 'struct': set(), 'valued': set()}
     sensitive = stats.setdefault('order_sensitive', [])
+    faults = stats.setdefault('faults', {})
 
     last_cmp = [None, None]
 
@@ -1046,6 +1047,15 @@ def check(case, run, stats=None):
                             batch['valued'].add((st_, key_))
                 if batch['struct'] & batch['valued']:
                     sensitive.append(ev['T'])
+                # F1: a cell removed, divided or moved while one of its parties has an update in flight
+                gone = (set(footprint) - fp_before)
+                for uid_, sd_ in sched.items():
+                    pe_ = sd_.get('pending')
+                    if pe_ and tuple(pe_.get('path', ())[:2]) in gone and ev['T'] < pe_['E']:
+                        faults['F1-inflight-kill'] = faults.get('F1-inflight-kill', 0) + 1
+                for kk_ in ('_add', '_delete', '_move', '_generate', '_divide'):
+                    if kk_ in str(update):
+                        faults['op' + kk_] = faults.get('op' + kk_, 0) + 1
                 for cpath in m.created[n_created:]:
                     created_at[cpath] = ev['T']
                 for (src, dst) in m.moved[n_moved:]:
@@ -1298,7 +1308,8 @@ def evaluate(case, prop=None):
         'violations': vs, 'probes': probes,
         'nontrivial': any(probes.get(k) for k in keys),
         'shape': kernel.shape_of(run.log), 'events': len(run.log),
-        'sim_seconds': final_T, 'faults': {}, 'executions': executions,
+        'sim_seconds': final_T, 'faults': dict(stats.get('faults', {}), **(
+            {'F6-restart': 1} if probes.get('restart-differential') else {})), 'executions': executions,
         'digest': run.digest, 'known_hits': stats.get('known_hits', {}),
     }
 
